@@ -258,7 +258,7 @@ Definition remove_simple_key : M unit :=
 Definition stale_simple_keys : M unit :=
   s <- get ;;
   let stale k := sk_possible k && (sc_flow_level s =? 0)
-                 && ((m_line (sk_mark k) <? m_line (sc_mark s)) || (m_index (sk_mark k) + 1024 <? m_index (sc_mark s))) in
+                 && ((m_line (sk_mark k) <? m_line (sc_mark s)) || (m_index (sk_mark k) + SIMPLE_KEY_MAX <? m_index (sc_mark s))) in
   if existsb (fun k => stale k && sk_required k) (sc_sks s) then fail 44 (sc_mark s)
   else put (set_sks (map (fun k => if stale k then
                                      {| sk_possible := false; sk_required := sk_required k;
@@ -276,7 +276,7 @@ Definition end_implicit_mapping (mk : marker) : M unit :=
 Definition increase_flow_level : M unit :=
   s <- get ;;
   let s' := set_sks ({| sk_possible := false; sk_required := false; sk_token_number := 0; sk_mark := mk0 |} :: sc_sks s) s in
-  if sc_flow_level s =? 255 then (fun _ => Err 45 (sc_mark s)) else put (set_fl (sc_flow_level s + 1) s').
+  if sc_flow_level s =? FLOW_LEVEL_MAX then (fun _ => Err 45 (sc_mark s)) else put (set_fl (sc_flow_level s + 1) s').
 Definition decrease_flow_level : M unit :=
   s <- get ;;
   if 0 <? sc_flow_level s then
